@@ -13,3 +13,9 @@ if [ ! -x "$V/bin/python" ] || ! "$V/bin/python" -c "import z3, numpy" >/dev/nul
   PIP_NO_INDEX=1 "$V/bin/pip" install -q --no-index --find-links /opt/veriftools/wheels z3-solver
 fi
 "$V/bin/python" -c "import z3, numpy; print('venv ok', z3.get_version_string(), numpy.__version__)"
+# translator validation (DESIGN 2.6): the symbolic NumPy layer against NumPy and against real pyOMA2 helpers
+if OUT=$(PYTHONPATH="$HERE:/repo/src" TQDM_DISABLE=1 "$V/bin/python" -W ignore -m symx.selftest 2>&1); then
+  echo "$OUT" | tail -1
+else
+  echo "$OUT" | grep -E "^FAIL|selftest" ; echo "HARNESS-ERROR shim self-test failed"; exit 3
+fi
